@@ -53,6 +53,8 @@ namespace {
     if (usepaths.empty()) { usepaths.push_back(""); }
 
     Env env;
+    // instrumented objects the environment itself owns (they outlive the engine): the baseline of the registry
+    const long env_tk_live = Tk::live(), env_tk_constructed = Tk::reg().constructed;
     if (auto *f = c.find("fault")) {
       env.fault_at = static_cast<int>(f->num("at", -1));
       env.fault_kind = static_cast<int>(f->num("kind", 0));
@@ -195,8 +197,8 @@ namespace {
     res += "]";
     chai.reset();
     env.kept.reset();
-    res += ",\"constructed\":" + std::to_string(Tk::reg().constructed - 3) + ",\"destroyed\":" + std::to_string(Tk::reg().destroyed);
-    res += ",\"live\":" + std::to_string(Tk::live() - 3) + ",\"uaf\":" + std::to_string(Tk::touched_after_destroy());
+    res += ",\"constructed\":" + std::to_string(Tk::reg().constructed - env_tk_constructed) + ",\"destroyed\":" + std::to_string(Tk::reg().destroyed);
+    res += ",\"live\":" + std::to_string(Tk::live() - env_tk_live) + ",\"uaf\":" + std::to_string(Tk::touched_after_destroy());
     res += "}";
     return res;
   }
